@@ -261,14 +261,30 @@ theorem down_getElem (a : Int) : ∀ (n i : Nat) (h : i < (down a n).length), (d
 
 theorem cands_sorted (t : Int) (len n : Nat) :
     (cands t len n).Pairwise (fun a b => key t a < key t b) := by
-  apply interleave_sorted (key t) _ _ 1
-  · intro i h; rw [up_getElem]; unfold key; split <;> omega
-  · intro j h; rw [down_getElem]; unfold key; split <;> omega
+  unfold cands
+  simp only
+  by_cases hc : t - 1 ≤ (len : Int) - n
+  · have e1 : min (t - 1) ((len : Int) - n) = t - 1 := by omega
+    have e2 : min t ((len : Int) - n + 1) = t := by omega
+    rw [e1, e2]
+    apply interleave_sorted (key t) _ _ 1
+    · intro i h; rw [up_getElem]; unfold key; split <;> omega
+    · intro j h; rw [down_getElem]; unfold key; split <;> omega
+  · have e0 : ((len : Int) - n - t).toNat = 0 := by omega
+    have e1 : min (t - 1) ((len : Int) - n) = (len : Int) - n := by omega
+    rw [e0, e1]
+    simp only [up, interleave]
+    rw [List.pairwise_iff_getElem]
+    intro i j hi hj hij
+    rw [down_getElem, down_getElem]
+    unfold key
+    split <;> split <;> omega
 
 /-- every position other than `t` where a needle of length `n` fits is a candidate -/
 theorem mem_cands {t p : Int} {len n : Nat} (h0 : 0 ≤ p) (h1 : n + p.toNat ≤ len) (hne : p ≠ t) :
     p ∈ cands t len n := by
   unfold cands
+  simp only
   rw [mem_interleave, mem_up, mem_down]
   omega
 
